@@ -524,7 +524,7 @@ KNOWN_DEFECT_gamiso_label_becomes_isotxs = False  # recorded in known_findings.j
 # ... should be ..."), and the following sub-blocks would be taken for a write pass because the matrix is no longer
 # None.  Every library with subblockingControl >= 2 and >= 2 groups is written but not read back.  With the flag True
 # the layout harness keeps NSBLOK == 1.
-KNOWN_DEFECT_isotxs_subblocked_scatter_unreadable = False  # recorded in known_findings.jsonl
+KNOWN_DEFECT_isotxs_subblocked_scatter_unreadable = False  # repaired in /repo (fix: c21e705)
 
 # which attribute holds the scatter matrix of a block, by the block's type flag IDSCT (constants at the top of
 # isotxs.py: 000+NN total, 100+NN elastic, 200+NN inelastic, 300+NN n2n; armi keeps order NN=0 of each and elastic P1 in
